@@ -22,6 +22,10 @@ CLAUSE_PROPERTY = {
     "envelope": "C14",
 }
 
+# the library's reading of a document is the reference parser's: text, attributes and special characters intact on reading
+# (C14), the same from str as from bytes / file (C18), and what a message's accessors expose is what the document names (C20)
+PARSE_CLAUSES = {"parse_faithful_ro": ("C14", "C18"), "parse_faithful_msg": ("C20", "C18")}
+
 STORY = ["StorySend", "StoryAppend", "StoryDelete", "StoryInsert", "StoryMove", "StoryReplace",
          "EAStoryReplace", "EAStoryDelete", "EAStoryInsert", "EAStorySwap", "EAStoryMove"]
 ITEM = ["ItemDelete", "ItemInsert", "ItemMoveMultiple", "ItemReplace", "EAItemReplace",
@@ -261,7 +265,7 @@ def run_merge_check(report, families, seed, tier, extra_assumptions=None):
                 if clause == "continuity":
                     report.machinery_error("continuity broken at %s" % b["id"])
                     continue
-                if CLAUSE_PROPERTY.get(clause) != prop:
+                if CLAUSE_PROPERTY.get(clause) != prop and prop not in PARSE_CLAUSES.get(clause, ()):
                     continue
                 key, msg = index[b["id"]]
                 detail = {"kind": "merge_case", "id": b["id"], "pre": gen["pres"][key], "msg": msg, "seed": seed}
@@ -284,6 +288,8 @@ def life_property(kind, clause):
         return ("C13", "C03")      # an object changed outside its own steps: shared content (C13) = a collateral edit (C03)
     if clause in ("msg_intact", "msg_unshared"):
         return ("C13",)
+    if clause in PARSE_CLAUSES:
+        return PARSE_CLAUSES[clause]
     if clause == "msg_expose":
         return ("C13", "C20")
     if kind == "reload":
